@@ -46,6 +46,17 @@ def gen_cases(ck, tier, seed, tmp, want_fired=True):
         return None
     ck.add_tlc("GdlRef/feature-selected rules, all texts and feature vectors", r)
     seeded += [c for c in r.emitted if c["fired"] > 0]
+    # cursor-returning rules all along long texts (the loop counter of a pass must count consecutive steps only)
+    out = os.path.join(tmp, "seedloop.ndjson")
+    r = vlib.tlc("GdlRefMC.tla", "GdlRef_seedloop.cfg", out_file=out, timeout=6000, coverage=False, heap="24g")
+    if r.violation:
+        ck.violation("TLC: %s violated in GdlRef (long texts)" % r.violation, {"why": "GdlRef model", "trace": vlib.tlc_error_trace(r.out)})
+        return None
+    ck.add_tlc("GdlRef/cursor-returning rules on texts of 9..11 glyphs", r)
+    loopc = [c for c in r.emitted if c["fired"] > 0]
+    rng0 = random.Random(seed)
+    rng0.shuffle(loopc)
+    loop_front = loopc[:(1500 if q else 100000)]
     if not q:
         out = os.path.join(tmp, "bfs.ndjson")
         r = vlib.tlc("GdlRefMC.tla", "GdlRef_bfs.cfg", out_file=out, timeout=6000, coverage=False, heap="24g")
@@ -60,7 +71,7 @@ def gen_cases(ck, tier, seed, tmp, want_fired=True):
     idle = [c for c in allc if c["fired"] == 0]
     n = 5000 if q else 120000
     rng.shuffle(seeded)
-    return fired[:n] + idle[:n // 10] + seeded[:(12000 if q else 400000)]
+    return fired[:n] + idle[:n // 10] + loop_front + seeded[:(12000 if q else 400000)]
 
 
 def write_cases(cases, path, rng=None, variants=False):
@@ -155,6 +166,9 @@ def run(ck, tier, seed):
         ck.extra["impl"] = {"gdl": h.summary["extra"]}
     if h.summary and not h.fault:
         validate_rule_steps(ck, cases, rtrace, tmp, random.Random(seed))
+        # the loop control around the rules (re-scan limits, forced advance) on shipped fonts
+        from checks import engine_common
+        engine_common.controller_trace(ck, tier, seed, tmp, exe, as_violation=True)
     ck.assumptions += ["GDL-lite family of spec/GdlRef.tla (uniform pre-context 0..1, rules of length <= 3, progress-only cursor returns); "
                        "fontgen/gdl.py + gfont.py compile each program to Silf v2/v3/v4 (linear and lookup classes), Glat, Gloc, cmap",
                        "intra-rule visibility of attribute assignments to later references is left outside the family (not fixed by the documented semantics)"]
